@@ -38,6 +38,8 @@ inductive HAct where
   | signalH
   /-- wait until `ServeHTTP` has returned -/
   | awaitRet
+  /-- keep running for a long while (many budgets) unless `ServeHTTP` returns earlier; then go on -/
+  | hold
   /-- `panic(v)` -/
   | panic (v : Nat)
   deriving Repr, DecidableEq, Inhabited
@@ -129,6 +131,7 @@ def stepH (s : St) : St :=
   | .awaitT :: r => if s.tWritten then { s with hprog := r } else s
   | .signalH :: r => { s with hprog := r, hGo := true }
   | .awaitRet :: r => if s.rpc = .returned then { s with hprog := r } else s
+  | .hold :: r => { s with hprog := r }
   | .panic v :: _ => { s with hprog := [], panicChan := some v, hDone := true, hGo := true }
 
 /-- `waitH`: the configured timeout handler waits for the handler's signal before it writes
